@@ -438,7 +438,14 @@ var c15NilExceptions = []nilExc{
 	{"ExtAuthZFilter).Check", "phi[", "handler variable: the type switch covers every filter kind that survives configuration loading (C17.R3: overrides are replaced, the oneof is required)"},
 }
 
+// crashRuleFor maps the shared crash-class rules onto the id of the property that runs them: C15 keeps
+// R1/R2/R4/R5; C17 (loading never panics) files all of them under C17.R4.
+var crashRuleFor = func(n string) string { return "C15." + n }
+
+func cr(n string) string { return crashRuleFor(n) }
+
 func checkC15(c *Check) {
+	crashRuleFor = func(n string) string { return "C15." + n }
 	P := c.P
 	R := GetRoles(P)
 	c.Assumes("panics inside jwx, net/http, protobuf, go-redis on hostile bytes are outside the own-code boundary (trusted base)")
@@ -472,7 +479,7 @@ func checkC15(c *Check) {
 	}
 	c.extra["reachable_from_check"] = len(fns)
 	if len(fns) < 45 {
-		c.Fail("C15.R2", "floor/reachable-functions", "-", fmt.Sprintf("only %d own functions reachable from Check (floor 45): call graph lost its roots", len(fns)))
+		c.Fail(cr("R2"), "floor/reachable-functions", "-", fmt.Sprintf("only %d own functions reachable from Check (floor 45): call graph lost its roots", len(fns)))
 	}
 
 	c15R1(c, fns)
@@ -496,23 +503,23 @@ func c15R1(c *Check, fns []*ssa.Function) {
 				n++
 				key := fmt.Sprintf("assert/%s/%s", fnKey(fn), typeShort(ta.AssertedType))
 				if ta.CommaOk {
-					c.Pass("C15.R1", key, P.Pos(instrPos(ta)), "comma-ok / type switch form")
+					c.Pass(cr("R1"), key, P.Pos(instrPos(ta)), "comma-ok / type switch form")
 					continue
 				}
 				// allow-table
 				if u, isU := ta.X.(*ssa.UnOp); isU && u.Op == token.MUL {
 					if g, isG := u.X.(*ssa.Global); isG && g.Pkg != nil && g.Pkg.Pkg.Path() == "net/http" && g.Name() == "DefaultTransport" &&
 						typeID(ta.AssertedType) == "net/http.Transport" {
-						c.Pass("C15.R1", key, P.Pos(instrPos(ta)), "listed: http.DefaultTransport is documented to be a *http.Transport")
+						c.Pass(cr("R1"), key, P.Pos(instrPos(ta)), "listed: http.DefaultTransport is documented to be a *http.Transport")
 						continue
 					}
 				}
 				if call, _, isC := asCall(ta.X); isC && isCallTo(call, "google.golang.org/protobuf/proto.Clone") &&
 					types.Identical(stripConv(call.Common().Args[0]).Type(), ta.AssertedType) {
-					c.Pass("C15.R1", key, P.Pos(instrPos(ta)), "listed: proto.Clone returns a message of its argument's concrete type, which is the asserted type")
+					c.Pass(cr("R1"), key, P.Pos(instrPos(ta)), "listed: proto.Clone returns a message of its argument's concrete type, which is the asserted type")
 					continue
 				}
-				c.Fail("C15.R1", key, P.Pos(instrPos(ta)), "unchecked type assertion "+descDepth(ta, 3)+" on a value whose dynamic type depends on input: panics (and terminates the service) when the type differs")
+				c.Fail(cr("R1"), key, P.Pos(instrPos(ta)), "unchecked type assertion "+descDepth(ta, 3)+" on a value whose dynamic type depends on input: panics (and terminates the service) when the type differs")
 			}
 		}
 	}
@@ -627,6 +634,9 @@ func c15R2(c *Check, R *Roles, fns []*ssa.Function) {
 				if bad && call != nil && isGeneratedGetter(calleeOf(call)) && impliedByTruePredicate(P, fs, call) {
 					bad = false
 				}
+				if bad && call != nil && isGeneratedGetter(calleeOf(call)) && impliedByNonZeroGetter(fs, l) {
+					bad = false
+				}
 				// a phi that merges nil with other values: the facts on the phi itself
 				key := fmt.Sprintf("deref/%s/%s/%s", fnKey(fn), shortOrigin(l), ds.what)
 				if seenKey[key] && !bad {
@@ -636,20 +646,20 @@ func c15R2(c *Check, R *Roles, fns []*ssa.Function) {
 				where := P.Pos(instrPos(ds.ins))
 				if bad {
 					if ex := nilExceptionFor(fn, origin, p); ex != "" {
-						c.Pass("C15.R2", key, where, "enumerated exception: "+ex)
+						c.Pass(cr("R2"), key, where, "enumerated exception: "+ex)
 						continue
 					}
 					// factory totality for store values
 					if call != nil && isCallTo(call, mFactoryGet) {
 						ok, why := factoryTotal(P)
-						c.Obl(ok, "C15.R2", key, where, "store from SessionStoreFactory.Get is non-nil for every filter of a loaded configuration: "+why,
+						c.Obl(ok, cr("R2"), key, where, "store from SessionStoreFactory.Get is non-nil for every filter of a loaded configuration: "+why,
 							"session store may be nil: "+why)
 						continue
 					}
 					_ = ci
-					c.Fail("C15.R2", key, where, fmt.Sprintf("%s of a value that can be nil (%s) without a dominating non-nil or success fact: a crafted request/IdP answer/store answer crashes the service", ds.what, origin))
+					c.Fail(cr("R2"), key, where, fmt.Sprintf("%s of a value that can be nil (%s) without a dominating non-nil or success fact: a crafted request/IdP answer/store answer crashes the service", ds.what, origin))
 				} else {
-					c.Pass("C15.R2", key, where, ds.what+" of "+origin+" under a non-nil/success fact")
+					c.Pass(cr("R2"), key, where, ds.what+" of "+origin+" under a non-nil/success fact")
 				}
 			}
 		}
@@ -759,6 +769,20 @@ func impliedByTruePredicate(P *Program, fs FactSet, getter *ssa.Call) bool {
 		}
 	}
 	return false
+}
+
+// impliedByNonZeroGetter: a generated (nil-safe) getter applied to v is known to have returned a
+// non-empty string — on a nil receiver it returns the zero value, hence v != nil.
+func impliedByNonZeroGetter(fs FactSet, v ssa.Value) bool {
+	eq, known := fs.cmp(func(a, b ssa.Value) bool {
+		s, isS := constString(b)
+		if !isS || s != "" {
+			return false
+		}
+		g, _, isC := asCall(resolveCell(a))
+		return isC && isGeneratedGetter(calleeOf(g)) && len(g.Common().Args) == 1 && sameVal(g.Common().Args[0], v)
+	})
+	return known && !eq
 }
 
 func shortOrigin(v ssa.Value) string {
@@ -960,14 +984,14 @@ func c15R4(c *Check, fns []*ssa.Function) {
 					}
 					n++
 					ok, why := indexInBounds(fn, ff.At(x), x.X, x.Index)
-					c.Obl(ok, "C15.R4", fmt.Sprintf("index/%s#%d", fnKey(fn), n), P.Pos(instrPos(x)), why, "index expression "+descDepth(x, 2)+": "+why)
+					c.Obl(ok, cr("R4"), fmt.Sprintf("index/%s#%d", fnKey(fn), n), P.Pos(instrPos(x)), why, "index expression "+descDepth(x, 2)+": "+why)
 				case *ssa.Index:
 					if okConstArrayIndex(x.X, x.Index) {
 						continue
 					}
 					n++
 					ok, why := indexInBounds(fn, ff.At(x), x.X, x.Index)
-					c.Obl(ok, "C15.R4", fmt.Sprintf("index/%s#%d", fnKey(fn), n), P.Pos(instrPos(x)), why, "index expression "+descDepth(x, 2)+": "+why)
+					c.Obl(ok, cr("R4"), fmt.Sprintf("index/%s#%d", fnKey(fn), n), P.Pos(instrPos(x)), why, "index expression "+descDepth(x, 2)+": "+why)
 				case *ssa.Slice:
 					if x.Low == nil && x.High == nil {
 						continue // s[:] never fails
@@ -988,11 +1012,11 @@ func c15R4(c *Check, fns []*ssa.Function) {
 					}
 					n++
 					ok, why := sliceInBounds(fn, ff.At(x), x)
-					c.Obl(ok, "C15.R4", fmt.Sprintf("slice/%s#%d", fnKey(fn), n), P.Pos(instrPos(x)), why, "slice expression "+descDepth(x, 2)+": "+why)
+					c.Obl(ok, cr("R4"), fmt.Sprintf("slice/%s#%d", fnKey(fn), n), P.Pos(instrPos(x)), why, "slice expression "+descDepth(x, 2)+": "+why)
 				case *ssa.MapUpdate:
 					n++
 					ok, why := mapIsMade(P, x.Map, 3)
-					c.Obl(ok, "C15.R4", fmt.Sprintf("mapwrite/%s#%d", fnKey(fn), n), P.Pos(instrPos(x)), why, "map write: "+why)
+					c.Obl(ok, cr("R4"), fmt.Sprintf("mapwrite/%s#%d", fnKey(fn), n), P.Pos(instrPos(x)), why, "map write: "+why)
 				}
 			}
 		}
@@ -1269,7 +1293,7 @@ func c15R5(c *Check, fns []*ssa.Function) {
 			for _, ins := range b.Instrs {
 				if pn, ok := ins.(*ssa.Panic); ok && pn.Pos().IsValid() { // position-less panics are go/ssa lowering artefacts (select)
 					n++
-					c.Fail("C15.R5", fmt.Sprintf("abort/%s/panic#%d", fnKey(fn), n), P.Pos(instrPos(pn)), "explicit panic in a function reachable from Check: a panic in a request goroutine terminates the whole service")
+					c.Fail(cr("R5"), fmt.Sprintf("abort/%s/panic#%d", fnKey(fn), n), P.Pos(instrPos(pn)), "explicit panic in a function reachable from Check: a panic in a request goroutine terminates the whole service")
 				}
 			}
 		}
@@ -1277,7 +1301,7 @@ func c15R5(c *Check, fns []*ssa.Function) {
 			cc := ci.Common()
 			if bi, ok := cc.Value.(*ssa.Builtin); ok && bi.Name() == "panic" {
 				n++
-				c.Fail("C15.R5", "abort/"+nthCallKey(ci), P.Pos(ci.Pos()), "explicit panic reachable from Check")
+				c.Fail(cr("R5"), "abort/"+nthCallKey(ci), P.Pos(ci.Pos()), "explicit panic reachable from Check")
 				continue
 			}
 			ce := calleeOf(ci)
@@ -1288,7 +1312,7 @@ func c15R5(c *Check, fns []*ssa.Function) {
 			name := ce.Obj.Name()
 			switch {
 			case id == "os.Exit", strings.HasPrefix(id, "log.Fatal"), strings.HasPrefix(id, "log.Panic"), strings.HasPrefix(id, "log.Logger.Fatal"), strings.HasPrefix(id, "log.Logger.Panic"):
-				c.Fail("C15.R5", "abort/"+nthCallKey(ci), P.Pos(ci.Pos()), shortID(id)+" reachable from Check terminates the service")
+				c.Fail(cr("R5"), "abort/"+nthCallKey(ci), P.Pos(ci.Pos()), shortID(id)+" reachable from Check terminates the service")
 			case strings.HasPrefix(name, "Must"):
 				allConst := true
 				for _, a := range callArgs(ci) {
@@ -1296,12 +1320,12 @@ func c15R5(c *Check, fns []*ssa.Function) {
 						allConst = false
 					}
 				}
-				c.Obl(allConst, "C15.R5", "must/"+nthCallKey(ci), P.Pos(ci.Pos()), shortID(id)+" with constant arguments only",
+				c.Obl(allConst, cr("R5"), "must/"+nthCallKey(ci), P.Pos(ci.Pos()), shortID(id)+" with constant arguments only",
 					shortID(id)+" panics on invalid input and is called with a non-constant argument in a function reachable from Check")
 			}
 		}
 	}
-	c.Pass("C15.R5", "scan", "-", fmt.Sprintf("%d functions reachable from Check scanned for panic / log.Fatal / os.Exit / Must*", len(fns)))
+	c.Pass(cr("R5"), "scan", "-", fmt.Sprintf("%d functions reachable from Check scanned for panic / log.Fatal / os.Exit / Must*", len(fns)))
 	_ = n
 }
 
@@ -1328,7 +1352,7 @@ func c15Getters(c *Check) {
 			bad = append(bad, fnKey(fn))
 		}
 	}
-	c.Obl(len(bad) == 0 && total >= 50, "C15.R2", "generated-getters-nil-safe", "config/gen/go",
+	c.Obl(len(bad) == 0 && total >= 50, cr("R2"), "generated-getters-nil-safe", "config/gen/go",
 		fmt.Sprintf("%d/%d generated getters start with the nil-receiver guard", guarded, total),
 		fmt.Sprintf("generated getters dereference a nil receiver: %v (of %d)", bad, total))
 }
